@@ -25,6 +25,11 @@ CHECKS = {
          "string-to-key over password classes (ASCII..supplementary plane) x salts x iteration counts, n-fold for every input length 1..64 x 5 output sizes, DK/DR/KDF-HMAC-SHA2, des3 random-to-key incl. all weak/semi-weak groups, every permutation of every subset of the three PA-data hints, and 200 generated keys per etype are compared with / used through the independent reference.",
          "Trusts ref/kcrypto (RFC 3961 A.1/A.3/A.4, RFC 3962 B, RFC 8009 A vectors). Iteration count 0 (2^32 iterations) and des3 with empty password+salt are not exercised.",
          "5.C08"),
+ "C01": ("differential runtime monitor under a virtual clock: VerifyAPREQ vs reference acceptor (RFC 4120 3.2.3) on reference-minted requests",
+         "exploration",
+         "AP-REQs are minted by an independent encoder/crypto for each of the six etypes under 72 service configurations; the base request, every single defect of a 60-entry catalogue (rejecting / neutral / not-judged) and seeded (quick) or all (thorough) ordered pairs are presented to service.VerifyAPREQ inside a testing/synctest bubble, so the four time bounds are decided to the nanosecond. Accept/reject and the reported identity (user name, realm, cname incl. type, expiry) must equal the reference acceptor's verdict computed from the same bytes, settings and virtual time.",
+         "Trusts ref/accept, ref/kmsg, ref/kcrypto, ref/pac (self-tested: RFC vectors; AD-issued sample PAC verifies under its real key). Error codes are observed, not judged. Not judged: empty name lists, ticket with caddr while no client address is configured, sname krbtgt.",
+         "5.C01"),
 }
 
 NOT_YET = "check not built yet in this revision of /verif (construction in progress, see DESIGN.md section 9)"
